@@ -961,6 +961,10 @@ fn gen_ops(rng: &mut Rng, id_span: u32) -> (Vec<BOp>, &'static str) {
 
 fn main() {
     let mut ctx = Ctx::from_args("C04");
+    if std::env::var("C04_TRACE_PANICS").is_ok() {
+        // debugging aid: show where a caught panic came from
+        std::panic::set_hook(Box::new(|i| eprintln!("panic: {}", i)));
+    }
 
     // ---- fill ---------------------------------------------------------------------------------
     for _ in 0..ctx.n(400, 6000) {
